@@ -163,6 +163,8 @@ def _worker(check, tier, w, nw, deadline, q):
 def apply_frozen(check, spec, v):
     """a failure inside the region of a known finding is attributed to it only if this very input is among the recorded failing inputs"""
     key = spec_key(check, spec)
+    if v.extra.get("shape"):
+        key = key + "#" + str(v.extra["shape"])  # the same input failing in another place is another input
     frozen = getattr(check, "frozen", None)
     if v.finding and frozen is not None and key not in frozen.get(v.finding, ()):
         v.reason = "matches the guard of %s but this input is not among its recorded failing inputs (known_regions): %s" % (v.finding, v.reason)
